@@ -183,7 +183,7 @@ class Run:
             code_fail = []
             for f in r.failures:
                 in_base = baseline is None or f["function"] in baseline["verified_functions"]
-                on_code = f["function"] in st.get("code_functions", []) or f["repo_file"] is not None
+                on_code = f["function"] in st["code_functions"]
                 if in_base and on_code:
                     code_fail.append(f)
                 else:
